@@ -6,7 +6,7 @@ E2 = "llvm-ir-z3"
 ENGINES = [
     {"name": E1, "path": "vlib/e1.py, vlib/xh_worker.py, harness/*.py",
      "serves_properties": ["C02", "C03", "C04", "C05", "C10", "C11", "C12", "C13",
-                           "C16", "C17", "C18", "C19"],
+                           "C16", "C17", "C18", "C19", "C20"],
      "kind_free_text": "CrossHair 0.0.110: per-path symbolic execution of the real "
                        "pytype functions (imported from /repo at run time) with z3 "
                        "deciding path feasibility and the postcondition; sharded over "
@@ -34,6 +34,11 @@ def _c(pid, engine, technique, level_text, level_note, design_ref):
 
 
 CHECKS = [
+    _c("C20", E1,
+       "symbolic execution (CrossHair+z3) of merge_pyi.merge_sources and its two stub pre-filter transformers over generated (program, stub) pairs; the property's clauses evaluated on the merged text with CPython's ast",
+       "Bounded solver-certified exhaustive check for generated pairs: for every bounded program shape (module and class variables, plain / partially annotated / star-arg / decorated / nested / async functions, methods, static and class methods) and every stub for the same definitions (parameter, return and variable types incl. Any, Never, Optional, TypeVar; decorators present or absent), the merged source compiles, equals the original after stripping annotations and the typing imports / TypeVar definitions the merge added, keeps existing annotations, inserts only the stub's annotations and never a bare Any/Never as return or variable annotation. One defect repaired (bare Any/Never variable annotations were inserted).",
+       "Trusted: CPython ast, libcst (third-party environment: parser and ApplyTypeAnnotationsVisitor run concretely, _merge_csts untraced), CrossHair, z3. Outside: stubs inferred by pytype for the program (VM), merge_files, other program shapes.",
+       "DESIGN.md 4 C20"),
     _c("C02", E1,
        "symbolic execution (CrossHair+z3) of matcher.py and the three enforcement entry points (InterpreterFunction.match_args, CallTracer._check_return, Context.check_annotation_type_mismatch) on (annotation, value) pairs selected by symbolic selectors, against an independent membership oracle on the CPython run-time value",
        "Bounded solver-certified exhaustive check at the matcher level: for every annotation of a depth-bounded grammar (scalars incl. a generated class hierarchy, List/Set/Sequence/Iterable/Tuple forms/Dict/Mapping/Optional/Union/Type/Callable, selected depth-3 forms) and every ground value expression of a 49-expression grammar, each of the three enforcement sites reports an error iff the run-time value is outside the annotated type. Annotation and value objects are those the real VM builds in one native set-up run; the matching and site code run traced. Two recorded findings (None accepted as bool; mixed-element container literals accepted at the argument site) are printed as KNOWN-FINDING and excluded.",
@@ -108,6 +113,5 @@ NOT_APPLICABLE = {
     "C08": "same code as C07 plus the Python binding; cache invalidation cannot be decided without encoding the solver itself",
     "C14": "operator dispatch, attribute lookup and call checking run inside the VM against the parsed builtins stub; inputs are programs and the oracle is executing them - nothing symbolic survives",
     "C15": "quantifies over source texts through compile -> blocks -> VM -> output; only the block-graph stage has an encodable kernel, claimed under C16",
-    "C20": "merge_pyi parses with libcst's native parser and delegates the merge to libcst's ApplyTypeAnnotationsVisitor; the deciding code is third-party and largely native",
     # Planned in DESIGN.md; listed here until their check is committed:
 }
